@@ -612,6 +612,11 @@ class Sym:
         return self._const("complex")
 
     def __int__(self):
+        if self.p.const_value() is None:
+            from . import path
+            if path.PATH is not None:
+                # int() must return an int: the symbolic truncation is only available through shim.sym_int
+                raise SymEscape(f"int() of a symbolic value: {self!r}")
         return int(self.__float__())
 
     def __index__(self):
